@@ -226,7 +226,7 @@ fn gen(max_opts: usize, lead4: bool) -> Vec<String> {
         out.push(format!("\t\n{s} "));
         out.push(s.replace(' ', "  "));
     }
-    for n in ["0", "00", "1", "2", "65535", "65536", "4294967294"] {
+    for n in ["0", "00", "1", "2", "65535", "65536", "4294967294", "4294967295", "4294967296", "4294967298", "8589934593", "18446744073709551617"] {
         for base in ["-name x", "-true", "-print0", "-name x -fprint f"] {
             out.push(format!("-threads {n} {base}"));
             out.push(format!("{base} -threads {n}"));
